@@ -303,6 +303,12 @@ func c18xRunInner(co *caseOut, kind string, in c18xInput) {
 		c18Nep2Frame(co, in)
 	case "strsweep":
 		c18StrSweep(co, in)
+	case "emitint":
+		c18EmitInt(co, in)
+	case "intenc":
+		c18IntEnc(co, in)
+	case "compconst":
+		c18CompConst(co, in)
 	default:
 		panic("unknown kind " + kind)
 	}
@@ -702,13 +708,18 @@ func c18xGenerate(co *caseOut, r *rng, cf *commonFlags) {
 		}
 	}
 	// (precision stays <= 18: fixedn.ToString takes the fraction through Uint64, see notes/C18.md)
-	for _, z := range []string{"340282366920938463463374607431768211456", "-340282366920938463463374607431768211457", "-5", "-15", "5"} {
+	// (2^63, 2^64, 2^255 and their neighbours: where int64 / uint64 / the VM range end)
+	for _, z := range []string{"340282366920938463463374607431768211456", "-340282366920938463463374607431768211457", "-5", "-15", "5",
+		"9223372036854775807", "9223372036854775808", "-9223372036854775808", "-9223372036854775809", "18446744073709551615", "18446744073709551616", "-18446744073709551616",
+		"57896044618658097711785492504343953926634992332820282019728792003956564819967", "57896044618658097711785492504343953926634992332820282019728792003956564819968",
+		"-57896044618658097711785492504343953926634992332820282019728792003956564819968", "-57896044618658097711785492504343953926634992332820282019728792003956564819969"} {
 		for _, prec := range []int{1, 8, 18} {
 			c18xRun(co, "fixed_tostr", c18xInput{Z: z, Prec: prec})
 		}
 	}
 	for _, s := range []string{"", ".", "-", "+", "0", "-0", "+0", "-0.5", "+0.5", "0.5", ".5", "5.", "1.50", "1.5.0", "1e5", "1.123456789", "1.12345678", "-1.12345678", "1.+5", "1.-5", "-1.-5",
-		"00012.5", "0x10", "1_000", " 1", "1 ", "92233720368.54775807", "92233720368.54775808", "-92233720368.54775808", "-92233720368.54775809", "184467440737.09551616", "--92233720368"} {
+		"00012.5", "0x10", "1_000", " 1", "1 ", "92233720368.54775807", "92233720368.54775808", "-92233720368.54775808", "-92233720368.54775809", "184467440737.09551616", "--92233720368",
+		"9223372036854775808", "-9223372036854775809", "18446744073709551616", "57896044618658097711785492504343953926634992332820282019728792003956564819968", "-57896044618658097711785492504343953926634992332820282019728792003956564819969", "578960446186580977117854925043439539266349923328202820197287920039565648.19968"} {
 		c18xRun(co, "fixed8_fromstr", c18xInput{S: sp(s)})
 		c18xRun(co, "fixed_fromstr", c18xInput{S: sp(s), Prec: pick(r, []int{0, 1, 8})})
 	}
